@@ -94,6 +94,26 @@ func ruleWorkerAnswers(p *Prog, r *Res, rule string) {
 				s, ok := nd.(*ast.SendStmt)
 				return ok && identObj(info, s.Chan) == ch
 			}
+			// a send in a deferred function literal at the top level of the worker runs on every way out
+			deferred := false
+			for _, st := range lit.Body.List {
+				ds, ok := st.(*ast.DeferStmt)
+				if !ok {
+					continue
+				}
+				if dl, ok := ds.Call.Fun.(*ast.FuncLit); ok {
+					if dg := p.FnOfLit(dl); dg != nil {
+						dfl := p.Flow(dg)
+						if !dfl.MustPass(sends).Found && !fallsOffEndAvoiding(dfl, dfl.Entry(), sends) {
+							deferred = true
+						}
+					}
+				}
+			}
+			if deferred {
+				r.Ok(rule, fmt.Sprintf("%s worker@%s answers on %s", f.Key(), relLine(p, f, gs), ch.Name()), p.Pos(gs), "a deferred function sends on "+ch.Name()+" on every way out of the worker")
+				return true
+			}
 			res := gfl.MustPass(sends)
 			// bare returns
 			bare := gfl.Reach([]Pt{gfl.Entry()}, func(nd ast.Node) bool {
